@@ -39,6 +39,28 @@ def leak_cfgs(name):
 
 def prepare(name, mode, leak):
     wn = modelkit.TEMPLATES[name](mode)
+    # edit history before the model is built: re-point both ends of one link to another node and back, and reverse one
+    # link for good (the adjacency the balance rows use is kept by the registry's usage map, updated by these setters)
+    juncs = wn.junction_name_list
+    jj = [l for ln, l in wn.links() if l.start_node_name in juncs and l.end_node_name in juncs]
+    if jj:                       # (a) start node re-pointed to another node and back
+        l = jj[0]
+        a_ = l.start_node_name
+        other = [j for j in wn.node_name_list if j not in (a_, l.end_node_name)][0]
+        l.start_node = wn.get_node(other)
+        l.start_node = wn.get_node(a_)
+    if len(jj) > 1:              # (b) end node re-pointed to another node and back
+        l = jj[1]
+        b_ = l.end_node_name
+        other = [j for j in wn.node_name_list if j not in (l.start_node_name, b_)][0]
+        l.end_node = wn.get_node(other)
+        l.end_node = wn.get_node(b_)
+    for ln, l in reversed(list(wn.pipes())):   # (c) one pipe reversed for good (start = old end, then end = old start)
+        if not l.check_valve and l not in jj[:2]:
+            a_, b_ = l.start_node_name, l.end_node_name
+            l.start_node = wn.get_node(b_)
+            l.end_node = wn.get_node(a_)
+            break
     if leak is not None:
         node = wn.get_node(leak[1])
         node._leak = True
@@ -370,7 +392,7 @@ def run(rep, only=None):
     for k, d in modelkit.DESCRIPTIONS.items():
         rep.templates.append('%s: %s' % (k, d))
     rep.bound('templates T1-T7 (<= 6 nodes, <= 8 links) x {DD, PDD} x leak {none, on a junction, on a tank}; all flows, heads, demands, leak rates: any real')
-    rep.bound('rebuild history: leak on, leak off, isolate last junction, reconnect, leak on (ModelUpdater.update after each)')
+    rep.bound('rebuild history: leak on, leak off, isolate last junction, reconnect, leak on (ModelUpdater.update after each); edit history before the build: one link re-pointed to another node and back at both ends, one pipe reversed')
     rep.bound('requested demand: 2 patterns (lengths 2-4), 3 demand categories, sim_time in [0, 3 h], pattern_start in [0, 2 pattern steps]: symbolic Ints')
     rep.assume('NewtonSolver returns converged only when max |residual| < tolerance (trusted; not encoded)')
     rep.assume('floats as reals')
